@@ -2,8 +2,11 @@ package driver
 
 import (
 	"fmt"
+	"math"
 	"runtime/debug"
 	"strings"
+	"syscall"
+	"unsafe"
 
 	"github.com/flowmatters/openwater-core/data"
 	"verif/simrt"
@@ -73,12 +76,14 @@ func isConsecutive(offs []int) bool {
 func relevant(prop, family string) bool {
 	switch prop {
 	case "C01":
-		return family == "view" || family == "write"
+		// both storage back-ends are in C01's and C02's quantifiers: a failure that only the
+		// C-backed array shows ("cdiff:<family>") counts for them too
+		return family == "view" || family == "write" || family == "cdiff:view" || family == "cdiff:write"
 	case "C02":
 		// Apply, ApplySlice and CopyFrom have contiguous fast paths: both properties name them
-		return family == "bulk" || family == "write"
+		return family == "bulk" || family == "write" || family == "cdiff:bulk" || family == "cdiff:write"
 	case "C03":
-		return family == "cdiff"
+		return strings.HasPrefix(family, "cdiff")
 	}
 	return true
 }
@@ -131,7 +136,18 @@ func arraysRun[T num, A arr[T, A]](k kit[T, A], rc *RunCtx, o *Outcome) {
 	w := rc.W
 	x := &arrCtx{rc: rc, o: o}
 	next := 1.0
-	uniq := func() float64 { next++; return next }
+	floatKit := isFloatKit[T]()
+	uniq := func() float64 {
+		if floatKit && w.Choose(14) == 13 {
+			// signed zeros: equal under ==, different bit patterns
+			if w.Bool(50) {
+				return math.Copysign(0, -1)
+			}
+			return 0
+		}
+		next++
+		return next
+	}
 	var roots []*arrRoot[T, A]
 	var views []*arrView[T, A]
 	guardBefore := w.Bool(30)
@@ -176,13 +192,13 @@ func arraysRun[T num, A arr[T, A]](k kit[T, A], rc *RunCtx, o *Outcome) {
 		}
 		for ri, r := range roots {
 			for i, e := range r.store {
-				if float64(r.goBuf[i]) != e {
+				if !sameVal(r.goBuf[i], e) {
 					x.fail(family, "storage-differs", "go/storage", "after %s: Go-backed storage of root %d element %d is %v, the reference has %v (a write touched the wrong element)", after, ri, i, r.goBuf[i], e)
 					return
 				}
-				if k.cGet(r.cb, i) != e {
+				if !sameBits(k, k.cGet(r.cb, i), e) {
 					if float64(r.goBuf[i]) == e {
-						x.fail("cdiff", "c-storage-differs", "c/storage", "after %s: C buffer of root %d element %d is %v, the Go-backed array and the reference have %v", after, ri, i, k.cGet(r.cb, i), e)
+						x.fail("cdiff:"+family, "c-storage-differs", "c/storage", "after %s: C buffer of root %d element %d is %v, the Go-backed array and the reference have %v", after, ri, i, k.cGet(r.cb, i), e)
 					} else {
 						x.fail(family, "storage-differs", "c/storage", "after %s: C buffer of root %d element %d is %v, reference %v", after, ri, i, k.cGet(r.cb, i), e)
 					}
@@ -190,7 +206,7 @@ func arraysRun[T num, A arr[T, A]](k kit[T, A], rc *RunCtx, o *Outcome) {
 				}
 			}
 			if off, ok := r.cb.canaryIntact(); !ok {
-				x.fail("cdiff", "write-outside-buffer", "c/canary", "after %s: the slack next to the C buffer of root %d was overwritten at byte offset %d relative to the buffer", after, ri, off)
+				x.fail("cdiff:"+family, "write-outside-buffer", "c/canary", "after %s: the slack next to the C buffer of root %d was overwritten at byte offset %d relative to the buffer", after, ri, off)
 				return
 			}
 		}
@@ -207,12 +223,12 @@ func arraysRun[T num, A arr[T, A]](k kit[T, A], rc *RunCtx, o *Outcome) {
 	}
 	// both back-ends must return the reference value
 	expect := func(what string, family string, ref float64, g, c T) {
-		if float64(g) != ref {
+		if !sameVal(g, ref) {
 			x.fail(family, "read-differs", "go/"+opName(what), "%s: the Go-backed array returned %v, the reference says %v", what, g, ref)
 			return
 		}
-		if float64(c) != ref {
-			x.fail("cdiff", "c-read-differs", "c/"+opName(what), "%s: the C-backed array returned %v, the Go-backed one and the reference %v", what, c, ref)
+		if !sameVal(c, ref) {
+			x.fail("cdiff:"+family, "c-read-differs", "c/"+opName(what), "%s: the C-backed array returned %v, the Go-backed one and the reference %v", what, c, ref)
 		}
 	}
 	// call f on the Go view and the C view; a panic in an in-bounds operation is a violation
@@ -231,7 +247,7 @@ func arraysRun[T num, A arr[T, A]](k kit[T, A], rc *RunCtx, o *Outcome) {
 		func() {
 			defer func() {
 				if r := recover(); r != nil {
-					x.fail("cdiff", "c-panic-or-fault", "c/panic/"+opName(what), "%s panicked or faulted on the C-backed array (out-of-buffer access hits the guard page): %v\n%s", what, r, trimStackStr(string(debug.Stack())))
+					x.fail("cdiff:"+family, "c-panic-or-fault", "c/panic/"+opName(what), "%s panicked or faulted on the C-backed array (out-of-buffer access hits the guard page): %v\n%s", what, r, trimStackStr(string(debug.Stack())))
 				}
 			}()
 			f(v.c)
@@ -531,19 +547,45 @@ func arraysRun[T num, A arr[T, A]](k kit[T, A], rc *RunCtx, o *Outcome) {
 				svals[i] = uniq()
 			}
 			layout := w.Choose(5)
-			srcG := makeSource(k, layout, sub, svals, w)
-			srcC := makeSource(k, layout, sub, svals, w)
-			if w.Bool(30) {
-				srcC = makeSource(k, 5, sub, svals, w) // C-backed source into the C-backed destination
-			}
-			idx := make([]int, rank)
-			pidx := make([]int, rank)
-			for i := 0; i < cnt; i++ {
-				for d := 0; d < rank; d++ {
-					pidx[d] = loc[d] + idx[d]*step[d]
+			// destination offsets of the block, row-major
+			doffs := make([]int, 0, cnt)
+			{
+				idx := make([]int, rank)
+				pidx := make([]int, rank)
+				for i := 0; i < cnt; i++ {
+					for d := 0; d < rank; d++ {
+						pidx[d] = loc[d] + idx[d]*step[d]
+					}
+					doffs = append(doffs, rv.offs[flatIndex(pidx, rv.shape)])
+					rowMajorNext(idx, sub)
 				}
-				r.store[rv.offs[flatIndex(pidx, rv.shape)]] = svals[i]
-				rowMajorNext(idx, sub)
+			}
+			var srcG, srcC A
+			aliased := false
+			if w.Bool(30) {
+				// the source is another view of the SAME storage (in-place decimation, shifting a
+				// block, copying between differently strided windows): only configurations in
+				// which the element-by-element definition does not depend on the order
+				if sv, soffs, ok := sameRootSource(views, v, sub, w); ok && hazardFree(doffs, soffs.offs) {
+					srcG, srcC = soffs.g, soffs.c
+					for i := range svals {
+						svals[i] = r.store[soffs.offs[i]]
+					}
+					aliased = true
+					layout = 0
+					_ = sv
+					o.probe("two_array_op_source_aliases_destination_storage")
+				}
+			}
+			if !aliased {
+				srcG = makeSource(k, layout, sub, svals, w)
+				srcC = makeSource(k, layout, sub, svals, w)
+				if w.Bool(30) {
+					srcC = makeSource(k, 5, sub, svals, w) // C-backed source into the C-backed destination
+				}
+			}
+			for i := 0; i < cnt; i++ {
+				r.store[doffs[i]] = svals[i]
 			}
 			var what string
 			var stepArg []int = step
@@ -584,7 +626,7 @@ func arraysRun[T num, A arr[T, A]](k kit[T, A], rc *RunCtx, o *Outcome) {
 				fam := "bulk"
 				tag := "go/"
 				if !isGo {
-					fam, tag = "cdiff", "c/"
+					fam, tag = "cdiff:bulk", "c/"
 				}
 				if got := a.Contiguous(); got != cons {
 					// both back-ends share the predicate: a wrong answer is the array package's
@@ -598,7 +640,7 @@ func arraysRun[T num, A arr[T, A]](k kit[T, A], rc *RunCtx, o *Outcome) {
 				}
 				mx, mn := r.store[rv.offs[0]], r.store[rv.offs[0]]
 				for i, off := range rv.offs {
-					if float64(u[i]) != r.store[off] {
+					if !sameVal(u[i], r.store[off]) {
 						x.fail(fam, "unroll-differs", tag+"unroll", "%s.Unroll()[%d] = %v, visiting the view in row-major order gives %v", rv.how, i, u[i], r.store[off])
 						return
 					}
@@ -626,7 +668,7 @@ func arraysRun[T num, A arr[T, A]](k kit[T, A], rc *RunCtx, o *Outcome) {
 				// the C root has to follow the reference too: write the same element through Set
 				idx := make([]int, len(rv.shape))
 				for i := 0; i < n; i++ {
-					if float64(v.c.Get(idx)) != r.store[rv.offs[i]] {
+					if !sameVal(v.c.Get(idx), r.store[rv.offs[i]]) {
 						v.c.Set(idx, T(r.store[rv.offs[i]]))
 					}
 					rowMajorNext(idx, rv.shape)
@@ -652,7 +694,7 @@ func arraysRun[T num, A arr[T, A]](k kit[T, A], rc *RunCtx, o *Outcome) {
 				isGo := any(a) == any(v.g)
 				fam, tag := "bulk", "go/"
 				if !isGo {
-					fam, tag = "cdiff", "c/"
+					fam, tag = "cdiff:bulk", "c/"
 				}
 				res, err := a.Reshape(newShape)
 				if (err != nil) != mismatch {
@@ -669,7 +711,7 @@ func arraysRun[T num, A arr[T, A]](k kit[T, A], rc *RunCtx, o *Outcome) {
 				}
 				idx := make([]int, len(newShape))
 				for i := 0; i < n; i++ {
-					if got := float64(res.Get(idx)); got != r.store[rv.offs[i]] {
+					if got := res.Get(idx); !sameVal(got, r.store[rv.offs[i]]) {
 						key := tag + "reshape"
 						if !cons {
 							key += "/non-contiguous-view"
@@ -714,18 +756,50 @@ func arraysRun[T num, A arr[T, A]](k kit[T, A], rc *RunCtx, o *Outcome) {
 			names := []string{"Scale", "AddTo", "ApplyFunc1"}
 			what := fmt.Sprintf("%s(dest %s, %s source)", names[which], rv.how, layoutNames[layout])
 			x.log = append(x.log, what)
+			var aSrc *aliasSrc[T, A]
+			aHazard := false
+			if w.Bool(30) {
+				if _, sv, ok := sameRootSource(views, v, rv.shape, w); ok {
+					aSrc = sv
+					aHazard = !hazardFree(rv.offs, sv.offs)
+					what = fmt.Sprintf("%s(dest %s, source = %s of the same storage)", names[which], rv.how, sv.how)
+					x.log[len(x.log)-1] = what
+					o.probe("array_arithmetic_source_aliases_destination_storage")
+				}
+			}
 			for i, off := range rv.offs {
+				sval := svals[i]
+				if aSrc != nil {
+					// element by element, in row-major order, on the current contents
+					sval = r.store[aSrc.offs[i]]
+				}
 				switch which {
 				case 0:
-					r.store[off] = svals[i] * 3
+					r.store[off] = float64(T(sval) * 3)
 				case 1:
-					r.store[off] = float64(T(r.store[off]) + T(svals[i]))
+					r.store[off] = float64(T(r.store[off]) + T(sval))
 				case 2:
-					r.store[off] = svals[i] + 1
+					r.store[off] = float64(T(sval) + 1)
 				}
 			}
 			both(what, "bulk", v, func(a A) {
+				isGo := any(a) == any(v.g)
 				src := makeSource(k, layout, rv.shape, svals, w)
+				if aSrc != nil {
+					if isGo {
+						src = aSrc.g
+					} else if aHazard {
+						// the C back-end computes from a snapshot of the source when both views are
+						// contiguous; with an order hazard its result is not defined by the property:
+						// bring the C buffer in line with the reference instead
+						for _, off := range rv.offs {
+							k.cSet(r.cb, off, r.store[off])
+						}
+						return
+					} else {
+						src = aSrc.c
+					}
+				}
 				switch which {
 				case 0:
 					k.scale(a, src, T(3))
@@ -750,7 +824,9 @@ func arraysRun[T num, A arr[T, A]](k kit[T, A], rc *RunCtx, o *Outcome) {
 		case kind == 18: // integer index helpers against their arithmetic definitions
 			helperChecks(x, w)
 		default:
-			if w.Bool(50) {
+			if w.Choose(400) == 399 {
+				hugeCProbe(k, x, w)
+			} else if w.Bool(50) {
 				extremeMinMax(k, x, w)
 			} else if len(roots) < 3 && w.Bool(30) {
 				newRoot()
@@ -764,17 +840,17 @@ func arraysRun[T num, A arr[T, A]](k kit[T, A], rc *RunCtx, o *Outcome) {
 func checkStoresBulk[T num, A arr[T, A]](k kit[T, A], x *arrCtx, roots []*arrRoot[T, A], after string) {
 	for ri, r := range roots {
 		for i, e := range r.store {
-			if float64(r.goBuf[i]) != e {
+			if !sameVal(r.goBuf[i], e) {
 				x.fail("bulk", "bulk-result-differs", "go/bulk", "after %s: Go-backed storage of root %d element %d is %v, the element-by-element definition gives %v", after, ri, i, r.goBuf[i], e)
 				return
 			}
-			if k.cGet(r.cb, i) != e {
-				x.fail("cdiff", "c-storage-differs", "c/bulk", "after %s: C buffer of root %d element %d is %v, the Go-backed array and the reference have %v", after, ri, i, k.cGet(r.cb, i), e)
+			if !sameBits(k, k.cGet(r.cb, i), e) {
+				x.fail("cdiff:bulk", "c-storage-differs", "c/bulk", "after %s: C buffer of root %d element %d is %v, the Go-backed array and the reference have %v", after, ri, i, k.cGet(r.cb, i), e)
 				return
 			}
 		}
 		if off, ok := r.cb.canaryIntact(); !ok {
-			x.fail("cdiff", "write-outside-buffer", "c/canary", "after %s: the slack next to the C buffer was overwritten at byte offset %d", after, off)
+			x.fail("cdiff:bulk", "write-outside-buffer", "c/canary", "after %s: the slack next to the C buffer was overwritten at byte offset %d", after, off)
 			return
 		}
 	}
@@ -982,9 +1058,175 @@ func extremeMinMax[T num, A arr[T, A]](k kit[T, A], x *arrCtx, w *simrt.Tape) {
 			c.Set([]int{i}, v)
 		}
 		if c.Maximum() != mx || c.Minimum() != mn {
-			x.fail("cdiff", "minmax-differs", "c/minmax", "%s on the C-backed array = %v/%v, the Go-backed array gives %v/%v", what, c.Maximum(), c.Minimum(), mx, mn)
+			x.fail("cdiff:bulk", "minmax-differs", "c/minmax", "%s on the C-backed array = %v/%v, the Go-backed array gives %v/%v", what, c.Maximum(), c.Minimum(), mx, mn)
 			return
 		}
 	}
 	x.o.probe("minmax_extreme_values")
+}
+
+// sameVal compares an element with the reference value on bit patterns for the floating-point
+// types (so that -0.0 and +0.0 are different values) and numerically for the integer types.
+func sameVal[T num](t T, ref float64) bool {
+	switch x := any(t).(type) {
+	case float64:
+		return math.Float64bits(x) == math.Float64bits(ref)
+	case float32:
+		return math.Float32bits(x) == math.Float32bits(float32(ref))
+	}
+	return float64(t) == ref
+}
+
+func sameBits[T num, A arr[T, A]](k kit[T, A], got, ref float64) bool {
+	var z T
+	switch any(z).(type) {
+	case float64:
+		return math.Float64bits(got) == math.Float64bits(ref)
+	case float32:
+		return math.Float32bits(float32(got)) == math.Float32bits(float32(ref))
+	}
+	return got == ref
+}
+
+func isFloatKit[T num]() bool {
+	var z T
+	switch any(z).(type) {
+	case float64, float32:
+		return true
+	}
+	return false
+}
+
+// hazardFree reports whether copying src -> dst element by element in row-major order is
+// independent of the order (no element written earlier is read later), so that the
+// element-by-element definition, a block copy and a snapshot copy all agree.
+func hazardFree(doffs, soffs []int) bool {
+	for i := 0; i < len(doffs); i++ {
+		for j := i + 1; j < len(soffs); j++ {
+			if doffs[i] == soffs[j] {
+				return false
+			}
+		}
+	}
+	return true
+}
+
+// aliasSrc is a source view cut from a pooled view of the same root as the destination.
+type aliasSrc[T num, A arr[T, A]] struct {
+	g, c A
+	offs []int
+	how  string
+}
+
+// sameRootSource cuts a view of the given shape out of a pooled view that shares the
+// destination's storage.  Returns the pooled parent, the cut and ok.
+func sameRootSource[T num, A arr[T, A]](views []*arrView[T, A], dest *arrView[T, A], shape []int, w *simrt.Tape) (*arrView[T, A], *aliasSrc[T, A], bool) {
+	var cands []*arrView[T, A]
+	for _, v := range views {
+		if v.ref.root != dest.ref.root || len(v.ref.shape) != len(shape) {
+			continue
+		}
+		fits := true
+		for d := range shape {
+			if v.ref.shape[d] < shape[d] {
+				fits = false
+			}
+		}
+		if fits {
+			cands = append(cands, v)
+		}
+	}
+	if len(cands) == 0 {
+		return nil, nil, false
+	}
+	p := cands[w.Choose(len(cands))]
+	rank := len(shape)
+	loc, step := make([]int, rank), make([]int, rank)
+	for d := 0; d < rank; d++ {
+		step[d] = 1
+		if shape[d] > 1 && (p.ref.shape[d]-1)/(shape[d]-1) >= 2 && w.Bool(40) {
+			step[d] = 2
+		}
+		span := (shape[d]-1)*step[d] + 1
+		loc[d] = w.Choose(p.ref.shape[d] - span + 1)
+	}
+	out := &aliasSrc[T, A]{how: fmt.Sprintf("%s.Slice(%v,%v,%v)", p.ref.how, loc, shape, step)}
+	idx, pidx := make([]int, rank), make([]int, rank)
+	for i := 0; i < product(shape); i++ {
+		for d := 0; d < rank; d++ {
+			pidx[d] = loc[d] + idx[d]*step[d]
+		}
+		out.offs = append(out.offs, p.ref.offs[flatIndex(pidx, p.ref.shape)])
+		rowMajorNext(idx, shape)
+	}
+	out.g = p.g.Slice(append([]int(nil), loc...), append([]int(nil), shape...), append([]int(nil), step...))
+	out.c = p.c.Slice(append([]int(nil), loc...), append([]int(nil), shape...), append([]int(nil), step...))
+	return p, out, true
+}
+
+// hugeCProbe: a C-backed array with more than 2^28 elements (lazily mapped, only its last
+// rows are touched): reads, writes and bulk operations near the end of the buffer.
+func hugeCProbe[T num, A arr[T, A]](k kit[T, A], x *arrCtx, w *simrt.Tape) {
+	const cols = 16384
+	rows := (1<<28)/cols + 2 + w.Choose(3)
+	n := rows * cols
+	total := ((n*k.cSize+pageSize-1)/pageSize + 1) * pageSize
+	mem, err := syscall.Mmap(-1, 0, total, syscall.PROT_READ|syscall.PROT_WRITE, syscall.MAP_ANON|syscall.MAP_PRIVATE|syscall.MAP_NORESERVE)
+	if err != nil {
+		x.o.probe("huge_c_buffer_probe_skipped(mmap_failed)")
+		return
+	}
+	defer syscall.Munmap(mem)
+	syscall.Mprotect(mem[total-pageSize:], syscall.PROT_NONE)
+	lo := total - pageSize - n*k.cSize
+	cb := &cbuf{region: mem, ptr: unsafe.Pointer(&mem[lo]), nbytes: n * k.cSize, lo: lo, hi: lo + n*k.cSize}
+	a := k.newC(cb.ptr, []int{rows, cols})
+	what := fmt.Sprintf("C-backed %s array [%d %d] (%d elements): operations on its last row", k.name, rows, cols, n)
+	x.log = append(x.log, what)
+	var escaped interface{}
+	func() {
+		defer func() { escaped = recover() }()
+		last := a.Slice([]int{rows - 1, 0}, []int{1, cols}, nil)
+		vals := make([]T, cols)
+		for j := range vals {
+			vals[j] = T(1 + j%97)
+		}
+		last.Apply([]int{0, 0}, 1, 1, vals)
+		for _, j := range []int{0, 1, cols / 2, cols - 1} {
+			if got := a.Get([]int{rows - 1, j}); got != vals[j] {
+				x.fail("cdiff:bulk", "huge-buffer", "c/huge", "%s: element [%d %d] reads %v after writing %v", what, rows-1, j, got, vals[j])
+				return
+			}
+			if got := k.cGet(cb, (rows-1)*cols+j); got != float64(vals[j]) {
+				x.fail("cdiff:bulk", "huge-buffer", "c/huge", "%s: the buffer holds %v at element %d, %v was written", what, got, (rows-1)*cols+j, vals[j])
+				return
+			}
+		}
+		u := last.Unroll()
+		if len(u) != cols || u[cols-1] != vals[cols-1] || u[0] != vals[0] {
+			x.fail("cdiff:bulk", "huge-buffer", "c/huge", "%s: Unroll of the last row is wrong", what)
+			return
+		}
+		if last.Maximum() != T(97) || last.Minimum() != T(1) {
+			x.fail("cdiff:bulk", "huge-buffer", "c/huge", "%s: Maximum/Minimum of the last row = %v/%v", what, last.Maximum(), last.Minimum())
+			return
+		}
+		rs, err := last.Reshape([]int{cols})
+		if err != nil || rs.Get([]int{cols - 1}) != vals[cols-1] {
+			x.fail("cdiff:bulk", "huge-buffer", "c/huge", "%s: Reshape of the last row is wrong (%v)", what, err)
+			return
+		}
+		src := k.fromSlice(append([]T(nil), vals...), []int{1, cols})
+		src.Set([]int{0, 5}, T(55))
+		last.CopyFrom(src)
+		if a.Get([]int{rows - 1, 5}) != T(55) {
+			x.fail("cdiff:bulk", "huge-buffer", "c/huge", "%s: CopyFrom into the last row did not arrive", what)
+			return
+		}
+	}()
+	if escaped != nil {
+		x.fail("cdiff:bulk", "huge-buffer", "c/huge", "%s panicked or faulted: %v", what, escaped)
+		return
+	}
+	x.o.probe("huge_c_buffer_probe(>2^28_elements)")
 }
